@@ -3,14 +3,22 @@
 
   Status: the FULL statement (`C06_no_deadlock_statement`: some thread is enabled in every
   reachable configuration with unfinished threads, for disciplined clients) is kept as a
-  definition and NOT yet proved in Lean; on the implementation side it is DECIDED (not
-  timed out) by the cooperative scheduler's wait-for graph over all schedules of the
-  cursor-next-to-Delete catalogue and random schedules.  Proved here: `Lock()` is the only
-  blocking primitive (a thread whose wanted mutex is free, or that is not waiting for a
-  mutex, can always step, and every step terminates — the model's step is a total
-  function, there are no retry loops), and the order in which Delete takes sibling locks.
+  definition and NOT proved in Lean.  Proved:
+    * the reduction `C06_ranked_no_deadlock_partial`: in every reachable configuration, if
+      every waiting thread waits for a mutex that follows all it holds in the level order of
+      the current tree and no thread ended with an open cursor, some thread can step (uses
+      mutual exclusion, proved for all reachable configurations);
+    * `Lock()` is the only blocking primitive and every step terminates
+      (`C06_only_locks_block_partial`; the model's step is a total function, no retry loops);
+    * Delete's sibling lock order left -> child -> right (`C06_delete_lock_order_partial`).
+  What remains unproved is that every reachable configuration IS ranked.  That predicate is
+  evaluated by the model driver in every configuration of every replayed run and, on the
+  implementation, by the `lockorder` oracle in every state the scheduler passes through;
+  deadlock itself is DECIDED (not timed out) by the cooperative scheduler's wait-for graph
+  over all schedules of the catalogues and over random schedules.
 -/
 import Gobptree.Proofs.ConcReach
+import Gobptree.Proofs.ConcRank
 
 namespace Gobptree.Conc
 open Gobptree
@@ -62,7 +70,56 @@ theorem C06_delete_lock_order_partial (key : K) (frames : List Frame) (node inde
   · simp [kontHeld, framesHeld]
   · intro l hl; simp [kontHeld, framesHeld, hl, optLock]
 
+/-- **C06 (reduction, proved): a reachable configuration that is ranked is not deadlocked.**
+    In every configuration reachable from any initial tree and any client programs in which
+    no thread panicked, if every waiting thread waits for a mutex that comes after all the
+    mutexes it holds in the level order of the current tree (`rootMutex`, root, then level
+    by level, left to right: `levelRank`), and no thread has ended with a cursor still open
+    (`FinishedClean`, the client's side of C06), then some thread can step whenever some
+    thread is unfinished. Mutual exclusion (`reachable_owner`) is what turns "the wanted
+    mutex is held" into "held by a thread that itself waits for a higher one".
+
+    What is NOT proved is that `Ranked (levelRank c.tree) c` holds in every reachable
+    configuration; that predicate is evaluated (`rankedB`, proved equivalent below) by the
+    model driver in every configuration of every replayed run, and on the implementation by
+    the `lockorder` oracle in every scheduler state. -/
+theorem C06_ranked_no_deadlock_partial (P : Params K) (tree : Tree K V) (progs : List (List (COp K V)))
+    (c : Config K V) (hr : Reachable (Config.init P tree progs) c) (hd : c.dead = false)
+    (hrank : Ranked (levelRank c.tree) c) (hfin : FinishedClean c) (hu : c.unfinished = true) :
+    c.enabledSet ≠ [] :=
+  ranked_not_deadlocked (levelRank c.tree) c
+    (reachable_owner _ c (init_ok P tree progs) (init_owner P tree progs) hr hd) hrank hfin hu
+
+/-- the executable test the driver runs is the hypothesis of the theorem -/
+theorem C06_rankedB_is_Ranked (c : Config K V) : rankedB c = true ↔ Ranked (levelRank c.tree) c :=
+  rankedB_iff c
+
+/-- the reduction is not specific to the level order: ANY ranking of the mutexes under which
+    every waiting thread waits above what it holds excludes deadlock -/
+theorem C06_any_ranking_no_deadlock_partial (rank : Lk → Nat) (c : Config K V) (ho : OwnerOk c)
+    (hr : Ranked rank c) (hf : FinishedClean c) (hu : c.unfinished = true) : c.enabledSet ≠ [] :=
+  ranked_not_deadlocked rank c ho hr hf hu
+
+/-- a two-leaf tree, thread 0 holding the root and waiting for leaf 2, thread 1 waiting for
+    the root -/
+def exTree : Tree Nat Nat :=
+  Tree.mk 4 1 (Inner.mk 1 [0, 5] [(Leaf.mk 2 [0, 1] [0, 0] (some 3) : Leaf Nat Nat), Leaf.mk 3 [5, 6] [0, 0] none] : Inner Nat (Node Nat Nat 0)) 4
+
+def exConfig : Config Nat Nat :=
+  Config.mk (Params.mk (fun a b => decide (a < b)) (fun _ => some 0) 4) exTree [(Lk.node 1, 0)]
+    [Thread.mk [COp.get 0] 0 (Park.want (Lk.node 2) (Kont.roNode false 0 (Lk.node 1) 2)) [Lk.node 1] none false,
+     Thread.mk [COp.get 5] 0 (Park.want (Lk.node 1) (Kont.roNode false 5 Lk.tree 1)) [] none false]
+    [] false
+
+/-- non-vacuity: the hypotheses of the reduction hold of a concrete waiting configuration
+    (ranked, unfinished), and exactly thread 0 is enabled in it -/
+example : rankedB exConfig = true ∧ exConfig.unfinished = true ∧ exConfig.enabledSet = [0] := by
+  decide
+
 end Gobptree.Conc
 
+#print axioms Gobptree.Conc.C06_ranked_no_deadlock_partial
+#print axioms Gobptree.Conc.C06_rankedB_is_Ranked
+#print axioms Gobptree.Conc.C06_any_ranking_no_deadlock_partial
 #print axioms Gobptree.Conc.C06_only_locks_block_partial
 #print axioms Gobptree.Conc.C06_delete_lock_order_partial
